@@ -8,38 +8,38 @@ open Pymodbus Pymodbus.Server RegisterFile
 def bcast (cfg : Cfg) (uid : Nat) : Bool := cfg.broadcast && hasBroadcast cfg.frontend && uid == 0
 
 /-- an ordinary (non-broadcast) request leaves every unit other than the addressed one untouched -/
-theorem addressed_unit_only (cfg : Cfg) (ctx : Units) (r : Req) (uid : Nat) (hb : bcast cfg uid = false) (v : Int)
-    (hv : v ≠ (if ctx.single then 0 else (uid : Int))) :
-    ServerCtx.lookup (callback cfg ctx r uid).1.slaves v = ServerCtx.lookup ctx.slaves v := by
+theorem addressed_unit_only (cfg : Cfg) (w : World) (r : Req) (uid : Nat) (hb : bcast cfg uid = false) (v : Int)
+    (hv : v ≠ (if w.units.single then 0 else (uid : Int))) :
+    ServerCtx.lookup (callback cfg w r uid).1.units.slaves v = ServerCtx.lookup w.units.slaves v := by
   unfold callback
   have hb' : (cfg.broadcast && hasBroadcast cfg.frontend && uid == 0) = false := hb
   rw [if_neg (by simp [hb'])]
-  cases hg : ctx.getItem uid with
+  cases hg : w.units.getItem uid with
   | error e => simp only []; split <;> rfl
   | ok s =>
     simp only []
     rw [C18.lookup_insert]
     rw [if_neg hv]
 
-/-- a request for a unit the server does not host changes nothing and is answered not at all or with a gateway
-    exception -/
-theorem unhosted_unit (cfg : Cfg) (ctx : Units) (r : Req) (uid : Nat) (hb : bcast cfg uid = false)
-    (hmiss : ∀ s, ctx.getItem uid ≠ .ok s) :
-    (callback cfg ctx r uid).1 = ctx ∧
-    ((callback cfg ctx r uid).2 = none ∨ (callback cfg ctx r uid).2 = some (.exception r.fc excGatewayNoResponse)) := by
+/-- a request for a unit the server does not host changes nothing (no table, no control state) and is answered
+    not at all or with a gateway exception -/
+theorem unhosted_unit (cfg : Cfg) (w : World) (r : Req) (uid : Nat) (hb : bcast cfg uid = false)
+    (hmiss : ∀ s, w.units.getItem uid ≠ .ok s) :
+    (callback cfg w r uid).1 = w ∧
+    ((callback cfg w r uid).2 = none ∨ (callback cfg w r uid).2 = some (.exception r.fc excGatewayNoResponse)) := by
   unfold callback
   have hb' : (cfg.broadcast && hasBroadcast cfg.frontend && uid == 0) = false := hb
   rw [if_neg (by simp [hb'])]
-  cases hg : ctx.getItem uid with
+  cases hg : w.units.getItem uid with
   | error e => simp only []; split <;> simp
   | ok s => exact absurd hg (hmiss s)
 
 /-- the unit a hosted request is executed on receives exactly the effect of executing the request on it -/
-theorem addressed_unit_executed (cfg : Cfg) (ctx : Units) (r : Req) (uid : Nat) (hb : bcast cfg uid = false)
-    (s : SlaveCtx) (hs : ctx.getItem uid = .ok s) :
-    ServerCtx.lookup (callback cfg ctx r uid).1.slaves (if ctx.single then 0 else (uid : Int)) =
-      some (Impl.serverExecute s r).1 ∧
-    (callback cfg ctx r uid).2 = some (Impl.serverExecute s r).2 := by
+theorem addressed_unit_executed (cfg : Cfg) (w : World) (r : Req) (uid : Nat) (hb : bcast cfg uid = false)
+    (s : SlaveCtx) (hs : w.units.getItem uid = .ok s) :
+    ServerCtx.lookup (callback cfg w r uid).1.units.slaves (if w.units.single then 0 else (uid : Int)) =
+      some (execAny w.ctl s r).2.1 ∧
+    (callback cfg w r uid).2 = some (execAny w.ctl s r).2.2 := by
   unfold callback
   have hb' : (cfg.broadcast && hasBroadcast cfg.frontend && uid == 0) = false := hb
   rw [if_neg (by simp [hb'])]
@@ -47,20 +47,34 @@ theorem addressed_unit_executed (cfg : Cfg) (ctx : Units) (r : Req) (uid : Nat) 
   rw [C18.lookup_insert]
   simp
 
+/-- … which for the data-access requests is the register-file execution of C04/C05 -/
+theorem addressed_unit_executed_dataAccess (ctl : Control) (s : SlaveCtx) (r : Req) (h : isDataAccess r = true) :
+    (execAny ctl s r).2.1 = (Impl.serverExecute s r).1 ∧ (execAny ctl s r).2.2 = (Impl.serverExecute s r).2 := by
+  rw [C09.execAny_dataAccess ctl s r h]; exact ⟨rfl, rfl⟩
+
+/-- the requests that are not data-access requests (diagnostics, identification, file records, FIFO) never change
+    any unit's tables -/
+theorem other_requests_leave_tables (ctl : Control) (s : SlaveCtx) (r : Req) (h : isDataAccess r = false) :
+    (execAny ctl s r).2.1 = s := by
+  unfold execAny execRaw
+  rw [if_neg (by simp [h])]
+  cases Impl.executeOther ctl r <;> rfl
+
 /-- a broadcast write is applied once to every hosted unit (datastores that do not fail) and produces no response -/
-theorem broadcast_once (r : Req) (l : List (Int × SlaveCtx))
+theorem broadcast_once (r : Req) (hd : isDataAccess r = true) (ctl : Control) (l : List (Int × SlaveCtx))
     (hok : ∀ kv ∈ l, ∃ x, Impl.execute kv.2 r = .ok x) :
-    broadcastAll r l = l.map (fun kv => (kv.1, (Impl.serverExecute kv.2 r).1)) := by
+    broadcastAll r ctl l = (ctl, l.map (fun kv => (kv.1, (Impl.serverExecute kv.2 r).1))) := by
   induction l with
   | nil => rfl
   | cons kv rest ih =>
     obtain ⟨k, s⟩ := kv
     obtain ⟨x, hx⟩ := hok (k, s) (by simp)
     have hrest : ∀ kv ∈ rest, ∃ x, Impl.execute kv.2 r = .ok x := fun kv hkv => hok kv (by simp [hkv])
-    simp only [broadcastAll, hx, List.map_cons, ih hrest, Impl.serverExecute]
+    simp only [broadcastAll, execRaw, hd, if_true, hx, List.map_cons, ih hrest, Impl.serverExecute]
 
-theorem broadcast_no_response (cfg : Cfg) (ctx : Units) (r : Req) (uid : Nat) (hb : bcast cfg uid = true) :
-    (callback cfg ctx r uid).2 = none ∧ (callback cfg ctx r uid).1.slaves = broadcastAll r ctx.slaves := by
+theorem broadcast_no_response (cfg : Cfg) (w : World) (r : Req) (uid : Nat) (hb : bcast cfg uid = true) :
+    (callback cfg w r uid).2 = none ∧
+    (callback cfg w r uid).1.units.slaves = (broadcastAll r w.ctl w.units.slaves).2 := by
   unfold callback
   have hb' : (cfg.broadcast && hasBroadcast cfg.frontend && uid == 0) = true := hb
   rw [if_pos hb']
